@@ -388,6 +388,13 @@ Proof. intro H. unfold rq_wf_lax. rewrite (wf_nil q H). reflexivity. Qed.
 Theorem wf_lookups_total q : rq_wf q = true -> lookups_total q.
 Proof. intro H. apply wf_lax_lookups_total, wf_implies_wf_lax, H. Qed.
 
+Theorem wf_lookups_total_explicit q : rq_wf q = true ->
+  (forall c, In c (used_cids q) -> lookup_cid q c <> None)
+  /\ (forall t, In t (used_tids q) -> lookup_tid q t <> None)
+  /\ (forall c d, In (c, d) (all_decls q) -> lookup_cid q c = Some d)
+  /\ NoDup (table_ids q).
+Proof. intro H. destruct (wf_lookups_total q H). auto. Qed.
+
 Theorem wf_lax_defs_nodup q : rq_wf_lax q = true -> NoDup (all_defs q).
 Proof.
   unfold rq_wf_lax, rq_diags. intro H. rewrite !forallb_app in H. apply andb_true_iff in H as [H1 _].
